@@ -26,6 +26,24 @@ CLAIMED = {
              'monitored on all real solvers.',
         note='Lean kernel + Mathlib; translator gen/gen_c06.py; time limit and stop flag are Boolean oracles; real-number semantics for formulas.',
         design='§6 C06'),
+    'C09': dict(
+        technique='Lean 4 proof (ring-buffer refinement by induction over op sequences; two-loop = dense BFGS operator; symmetry/secant/posdef) of translator-generated acceptance test and ring loops + bit-exact op-sequence correspondence + exact-rational dense-BFGS monitors',
+        category='proof',
+        text='Props/C09.lean, all histories / memory sizes / dimensions: every interleaving of update, forced update, apply, reset, resize, scale_y refines the history model (run_refines, wraparound_keeps_most_recent); stored iff forced or update_valid (generated from lbfgs.tpp); apply = dense H(hist, gamma0) with the documented scaling; H symmetric, secant, positive definite under positive curvature. Partial: masked variant proved only to preserve the history; equality with the J-restricted operator is monitored.',
+        note='Lean kernel + Mathlib; gen/gen_c09.py (7 regions); hand model tied on explored op sequences (bit-exact); real-number semantics; std::pow uninterpreted.',
+        design='§6 C09, §7-I, A.2'),
+    'C17': dict(
+        technique='Lean 4 proof of the CSV reader state machine (window invariant, induction over fields) + translator of csv.tpp/print.tpp constants, expressions and skeletons + exact op-sequence correspondence + round-trip monitors',
+        category='proof',
+        text='Proved for all line lengths, chunk-boundary positions, separators, field counts: valid rows of tokens shorter than the window are read exactly and leave the stream at the next line; wrong separator / trailing garbage / empty or non-numeric field / too few / too many fields are rejected with consumption inside the line; print-then-read modulo the from_chars/to_chars contract. Partial: comment skipping, read_row_std_vector, matrix/python/matlab framing and the decimal<->binary round trip (libstdc++) are correspondence + monitors only.',
+        note='Lean kernel + Mathlib; gen/gen_c17.py; from_chars/to_chars are oracles exercised over bit patterns; hand model tied on explored op sequences.',
+        design='§6 C17, §7-B'),
+    'C18': dict(
+        technique='Lean 4 proof: decide over attribute tables regenerated from structs.ipp / headers + theorems about a hand model of set_params (frame, rejection, counters, no-half-write, duration rounding) + full field x variant correspondence sweep',
+        category='proof',
+        text='Table properties (every field / enumerator covered, keys unique, aliases resolve, nested tables exist) are decide theorems over tables regenerated from the current source; dispatch / frame / rejection / used-counter / no-half-write theorems hold for all option strings of a hand model tied exactly to the real set_params on the full field x variant sweep; duration rounding in exact arithmetic. from_chars is an oracle.',
+        note='Lean kernel + Mathlib; gen/gen_c18.py (6 regions); from_chars(double) oracle; binary64 duration products monitored (2 ulp); coarse-resolution rounding branch and int64 overflow not proved.',
+        design='§6 C18, §7-C,D,E'),
 }
 
 NOT_YET = {
